@@ -1232,7 +1232,8 @@ Section Editor.
     | CReplaceChar n ch => edit_replace_char ch n ;;; eret Proceed
     | CReplace m text =>
       edit_kill m ;;;
-      (match text with Some t => edit_insert_text t | None => eret tt end) ;;; eret Proceed
+      (* a change that brings its text is complete: its undo group is closed (repair of F26) *)
+      (match text with Some t => edit_insert_text t ;;; (edo _ <- changes_end; eret tt) | None => eret tt end) ;;; eret Proceed
     | COverwrite ch => edit_overwrite_char ch ;;; eret Proceed
     | CEndOfFile =>
       edo s <- eget;
